@@ -89,6 +89,13 @@ Unsub(h, o) ==
 \*   unsub_at = k : on the k-th item call unsubscribe() on the sink's own Subscription (if subscribe() already returned it)
 \*   emit_at  = k : on the k-th item call next(7) on subject emit_j            (re-entrant emission)
 \*   sub_at   = k : on the k-th item subscribe sink 3 to subject emit_j        (re-entrant subscription)
+\* unsubscribe() on sink u's own Subscription from inside the library's call chain (if subscribe() already returned it)
+UnsubFromInside(h, u) ==
+  LET sc == h.sinkcnt[u] IN
+  IF sc.handle # 0 /\ sc.live
+  THEN LET hu == Unsub([h EXCEPT !.sinkcnt[u].live = FALSE], sc.handle)
+       IN IF hu.stuck # "" THEN hu ELSE Emit(hu, Ev("mark", u, "unsubret", 0))
+  ELSE h
 SinkReact(h, u) ==
   LET sc == h.sinkcnt[u]
       cnt == sc.seen + 1
@@ -170,12 +177,17 @@ CtlRec(term, sub) == [term |-> term, sub |-> sub, ups |-> <<>>, serial |-> 0, n 
 NewCtl(h, term, sub) ==
   LET c == Len(h.ctl) + 1
   IN << [h EXCEPT !.ctl = Append(@, CtlRec(term, sub)), !.obs[sub].td = [k |-> "fin", a |-> c, b |-> 0]], c >>
+\* (fix: when the controller's subscriber has already ended, the new observer is born unsubscribed and is not registered,
+\*  so that Subscribe does nothing for it)
 NewObserver(h, c, port) ==
   LET serial == h.ctl[c].serial
       o == Len(h.obs) + 1
-  IN << [h EXCEPT !.obs = Append(@, NewObs(InHd(c, port, serial))),
-                  !.ctl[c].serial = serial + 1,
-                  !.ctl[c].ups = Append(@, [s |-> serial, o |-> o])], o >>
+  IN IF IsSub(h, h.ctl[c].sub)
+     THEN << [h EXCEPT !.obs = Append(@, NewObs(InHd(c, port, serial))),
+                       !.ctl[c].serial = serial + 1,
+                       !.ctl[c].ups = Append(@, [s |-> serial, o |-> o])], o >>
+     ELSE << [h EXCEPT !.obs = Append(@, [NewObs(InHd(c, port, serial)) EXCEPT !.n = FALSE, !.e = FALSE, !.c = FALSE]),
+                       !.ctl[c].serial = serial + 1], o >>
 NewSubject(h, kind, hook) ==
   << [h EXCEPT !.sbj = Append(@, [kind |-> kind, map |-> <<>>, serial |-> 0, items |-> <<>>, last |-> [has |-> FALSE, v |-> 0],
                                    err |-> [has |-> FALSE, v |-> 0], completed |-> FALSE, hook |-> hook])], Len(h.sbj) + 1 >>
@@ -196,9 +208,12 @@ OnNext(h, o, hd, x) ==
                           [] t.f = "err1" -> IF x = 1 THEN Leaf("error", 8) ELSE Leaf("just", x)
                           [] t.f = "probe2" -> Leaf("probe", 2)
                           [] t.f = "probe2map" -> U("map", 0, "inc", Leaf("probe", 2))
+                          [] t.f = "unsub_probe2" -> Leaf("probe", 2)       \* the mapping function first unsubscribes sink 1
+                          [] t.f = "obsmat" -> U("materialize", 0, "", Leaf("subject", x - ObsBase))
                           [] OTHER -> Leaf("empty", 0)
-               p == NewObserver(h, c, 1)
-           IN Subscribe(p[1], inner, p[2])
+               h0 == IF t.f = "unsub_probe2" THEN UnsubFromInside(h, 1) ELSE h
+               p == NewObserver(h0, c, 1)
+           IN IF h0.stuck # "" THEN h0 ELSE Subscribe(p[1], inner, p[2])
          ELSE SinkNext(h, c, x)
     [] op = "map" -> SinkNext(h, c, ApplyF(t.f, t.a, x))
     [] op = "filter" -> IF ApplyP(t.f, t.a, x) THEN SinkNext(h, c, x) ELSE h
@@ -428,6 +443,7 @@ Subscribe0(h, t, o) ==
              R(hh, n) == IF n >= t.a + t.b \/ hh.stuck # "" \/ ~IsSub(hh, o) THEN hh ELSE R(CallNext(hh, o, n), n + 1)
          IN CallComplete(R(h, t.a), o)
     [] t.op = "repeat" -> RepeatLoop(h, o, t.a)
+    [] t.op = "from_iter_endless" -> RepeatLoop(h, o, t.a)      \* from_iter(iter::repeat(a)): poll, emit, poll, ... like repeat
     [] t.op = "defer" -> Subscribe(h, t.in[1], o)
     [] t.op = "subject" ->
          IF h.sbj[t.a].kind = "async" THEN Subscribe(h, U("take_last", 1, "", Leaf("rawsubject", t.a)), o)   \* AsyncSubject::observable
